@@ -177,6 +177,12 @@ Definition store_reply (s : cstore) (id : N) : read_reply :=
 (* Search / List when the query itself fails (pager.NextPage returns an error): one Stream{Err}, then close *)
 Definition cosmos_stream_failed : list sev := produce result_of_row None.
 
+(* cosmosdb Search / List: `for pager.More() { res := pager.NextPage(ctx); for item in res.Items { send } }`.
+   The service hands the result of the query out in pages, some of which may be empty although more follow;
+   the loop ends when there is no continuation, never because a page was empty. *)
+Definition consume_pages (conv : row -> result) (pages : list (list row)) : list sev :=
+  flat_map (fun page => map (fun r => SItem (conv r)) page) pages ++ [SClose].
+
 (* ------------------------------------------------------------------ sqlite: buildSearchQuery *)
 
 Definition nonempty {A} (l : list A) : bool := match l with [] => false | _ => true end.
